@@ -18,7 +18,10 @@ def run():
         return 2
     try:
         if a.replay:
-            return mod.replay(a.replay)
+            if hasattr(mod, "replay"):
+                return mod.replay(a.replay)
+            from . import c04
+            return c04.replay(a.prop.upper(), a.replay)
         return mod.main(tier, seed)
     except SystemExit:
         raise
